@@ -194,6 +194,24 @@ class ClassValue:
     def issubclass(self, other):
         return other in self.mro
 
+    def declares_attr(self, name):
+        """does the source of this class (or a base) give its instances an attribute `name`
+        (via __slots__ or an assignment `self.name = ...` in a method)?"""
+        import ast
+
+        for c in self.mro:
+            slots = c.ns.get("__slots__") if hasattr(c, "ns") else None
+            if isinstance(slots, (tuple, list)) and name in slots:
+                return True
+            for v in (c.ns.values() if hasattr(c, "ns") else ()):
+                node = getattr(v, "node", None)
+                if node is None:
+                    continue
+                for n in ast.walk(node):
+                    if isinstance(n, ast.Attribute) and n.attr == name and isinstance(n.ctx, ast.Store) and isinstance(n.value, ast.Name) and n.value.id == "self":
+                        return True
+        return False
+
     def __repr__(self):
         return f"<class {self.qualname}>"
 
